@@ -109,8 +109,55 @@ def handleEvent (st : DState) (w : World) (ev : Json) : DState × Json :=
     | .ok coin => fin (step w (.faucet (getStr ev "to") coin))
   | _ => bad s!"unknown event {kind}"
 
+def jR {α} (f : α → Json) (r : R α) : Json :=
+  match r with
+  | .ok a => Json.mkObj [("ok", f a)]
+  | .error (.panic site) => Json.mkObj [("panic", .str site)]
+  | .error e => Json.mkObj [("err", Json.mkObj [("kind", .str e.kind)])]
+
+def argStr (a : Array Json) (i : Nat) : String :=
+  match a[i]? with
+  | some (.str s) => s
+  | _ => ""
+
+def argNat (a : Array Json) (i : Nat) : Nat :=
+  match a[i]? with
+  | some (.str s) => s.toNat?.getD 0
+  | some v => (v.getNat?.toOption).getD 0
+  | none => 0
+
+/-- the model's version of the pure helper functions (`PURE` differential) -/
+def handlePure (req : Json) : Json :=
+  let f := getStr req "fn"
+  let a : Array Json := match req.getObjVal? "args" with
+    | .ok (.arr a) => a
+    | _ => #[]
+  match f with
+  | "compute_mint_amount" => jR jStrNat (computeMint (argNat a 0) (argNat a 1) (argNat a 2))
+  | "compute_unbond_amount" => jR jStrNat (computeUnbond (argNat a 0) (argNat a 1) (argNat a 2))
+  | "multiply_ratio" => jR jStrNat (mulRatio "mr" (argNat a 0) (argNat a 1) (argNat a 2))
+  | "decimal_from_ratio" => jR (fun x => Json.str (decimalToString x)) (decimalFromRatio "dr" (argNat a 0) (argNat a 1))
+  | "validate_address_prefix" => jR Json.str (validatePrefix (argStr a 0))
+  | "validate_address" => jR Json.str (validateAddress (argStr a 0) (argStr a 1))
+  | "treasury_validate_address" => jR Json.str (validateAddress (argStr a 0) (argStr a 1))
+  | "validate_addresses" =>
+    let l : List String := match (a[0]? : Option Json) with
+      | some (Json.arr xs) => xs.toList.filterMap (fun x => match x with | Json.str s => some s | _ => none)
+      | _ => []
+    jR (fun xs => Json.arr (xs.map Json.str).toArray) (validateAddresses l (argStr a 1))
+  | "validate_denom" => jR Json.str (validateDenom (argStr a 0))
+  | "validate_ibc_denom" => jR Json.str (validateIbcDenom (argStr a 0))
+  | "derive_intermediate_sender" =>
+    match deriveIntermediateSender (argStr a 0) (argStr a 1) (argStr a 2) with
+    | some s => Json.mkObj [("ok", .str s)]
+    | none => Json.mkObj [("err", Json.mkObj [("kind", "Std")])]
+  | "channel_ok" => Json.mkObj [("ok", .bool (channelOk (argStr a 0)))]
+  | "addr_validate" => jR Json.str (addrValidate (argStr a 0) (argStr a 1))
+  | _ => Json.mkObj [("bad", .str s!"unknown pure fn {f}")]
+
 def handle (st : DState) (req : Json) : DState × Json :=
   match getStr req "op" with
+  | "pure" => (st, handlePure req)
   | "boot" =>
     let build := if getStr req "build" == "miniwasm" then Build.miniwasm else Build.osmosis
     let self := getStr req "self"
